@@ -390,6 +390,7 @@ func c17(r *vc.Run) int {
 	parallel(len(pipeRuns), 12, func(i int) {
 		sc := pipeRuns[i]
 		sc.Index += 5000
+		sc.PauseBeforeStop = i%3 != 2
 		dir := filepath.Join(r.Scratch, fmt.Sprintf("c17-pipe-%d", i))
 		res := runChild(os.Getenv("VZ_BIN"), "pipe-c01", sc, dir, 6*time.Minute)
 		sink := &discardSink{}
